@@ -82,7 +82,7 @@ func zeroVal(t *Ty) Val {
 	case "opt0":
 		return atom("_")
 	}
-	s, ok := registry[t.String()]
+	s, ok := c06Static(t.String())
 	if !ok {
 		panic("no static type for " + t.String())
 	}
@@ -113,11 +113,12 @@ func supported(t *Ty) bool {
 		_, ok := registry[t.Args[0].String()]
 		return ok && !strings.HasPrefix(t.Args[0].String(), "fixedbits") && t.Args[0].Kind != "pluginmsg"
 	}
-	_, ok := registry[t.String()]
+	_, ok := c06Static(t.String())
 	return ok
 }
 
 func build(t *Ty, v Val, mode, variant int) inst {
+	v = c06Expand(t, v)
 	switch t.Kind {
 	case "tuple":
 		encs, decs := pk.Tuple{}, pk.Tuple{}
@@ -133,7 +134,7 @@ func build(t *Ty, v Val, mode, variant int) inst {
 			for i, g := range gets {
 				parts[i] = g()
 			}
-			return "(" + strings.Join(parts, ",") + ")"
+			return c06Join(parts)
 		}}
 	case "opt1", "opt0":
 		has := t.Kind == "opt1"
@@ -182,7 +183,11 @@ func build(t *Ty, v Val, mode, variant int) inst {
 	case "option":
 		return registry[t.Args[0].String()].Option(v, mode, (variant/6)%2 == 1)
 	}
-	return registry[t.String()].Inst(v, mode)
+	st, ok := c06Static(t.String())
+	if !ok {
+		panic("no static type for " + t.String())
+	}
+	return st.Inst(v, mode)
 }
 
 // ---------- operations ----------
